@@ -1144,13 +1144,23 @@ type compactKind struct {
 	decB func(b []byte) (dump string, err error) // UnmarshalBencode
 }
 
+// spoil overwrites a buffer that has been handed to an UnmarshalBinary: encoding.BinaryUnmarshaler
+// "must copy the data if it wishes to retain it", so the decoded value must be unaffected.
+func spoil(b []byte) {
+	for i := range b {
+		b[i] ^= 0xa5
+	}
+}
+
 func compactKinds() []compactKind {
 	return []compactKind{
 		{"na4", 6, func(b []byte) (string, []byte, error) {
 			var x krpc.CompactIPv4NodeAddrs
-			if err := x.UnmarshalBinary(b); err != nil {
+			buf := append([]byte{}, b...)
+			if err := x.UnmarshalBinary(buf); err != nil {
 				return "", nil, err
 			}
+			spoil(buf) // the caller reuses its buffer: a decoded value must not alias it
 			out, err := x.MarshalBinary()
 			return dumpAddrsNE(x), out, err
 		}, func(b []byte) (string, error) {
@@ -1160,9 +1170,11 @@ func compactKinds() []compactKind {
 		}},
 		{"na6", 18, func(b []byte) (string, []byte, error) {
 			var x krpc.CompactIPv6NodeAddrs
-			if err := x.UnmarshalBinary(b); err != nil {
+			buf := append([]byte{}, b...)
+			if err := x.UnmarshalBinary(buf); err != nil {
 				return "", nil, err
 			}
+			spoil(buf) // the caller reuses its buffer: a decoded value must not alias it
 			out, err := x.MarshalBinary()
 			return dumpAddrsNE(x), out, err
 		}, func(b []byte) (string, error) {
@@ -1172,9 +1184,11 @@ func compactKinds() []compactKind {
 		}},
 		{"ni4", 26, func(b []byte) (string, []byte, error) {
 			var x krpc.CompactIPv4NodeInfo
-			if err := x.UnmarshalBinary(b); err != nil {
+			buf := append([]byte{}, b...)
+			if err := x.UnmarshalBinary(buf); err != nil {
 				return "", nil, err
 			}
+			spoil(buf) // the caller reuses its buffer: a decoded value must not alias it
 			out, err := x.MarshalBinary()
 			return dumpNodesNE(x), out, err
 		}, func(b []byte) (string, error) {
@@ -1184,9 +1198,11 @@ func compactKinds() []compactKind {
 		}},
 		{"ni6", 38, func(b []byte) (string, []byte, error) {
 			var x krpc.CompactIPv6NodeInfo
-			if err := x.UnmarshalBinary(b); err != nil {
+			buf := append([]byte{}, b...)
+			if err := x.UnmarshalBinary(buf); err != nil {
 				return "", nil, err
 			}
+			spoil(buf) // the caller reuses its buffer: a decoded value must not alias it
 			out, err := x.MarshalBinary()
 			return dumpNodesNE(x), out, err
 		}, func(b []byte) (string, error) {
@@ -1196,9 +1212,11 @@ func compactKinds() []compactKind {
 		}},
 		{"ih", 20, func(b []byte) (string, []byte, error) {
 			var x krpc.CompactInfohashes
-			if err := x.UnmarshalBinary(b); err != nil {
+			buf := append([]byte{}, b...)
+			if err := x.UnmarshalBinary(buf); err != nil {
 				return "", nil, err
 			}
+			spoil(buf) // the caller reuses its buffer: a decoded value must not alias it
 			out, err := x.MarshalBinary()
 			return dumpHashes(x), out, err
 		}, func(b []byte) (string, error) {
@@ -1323,7 +1341,7 @@ func (c *c15) codecSweeps() {
 			b := c.bytesN(n)
 			var a krpc.NodeAddr
 			var err error
-			pan := safely(func() { err = a.UnmarshalBinary(b) })
+			pan := safely(func() { buf := append([]byte{}, b...); err = a.UnmarshalBinary(buf); spoil(buf) })
 			ans := "err"
 			rp := map[string]string{"input": hx(b)}
 			switch {
@@ -1370,7 +1388,7 @@ func (c *c15) codecSweeps() {
 			b := c.bytesN(n)
 			var ni krpc.NodeInfo
 			var err error
-			pan := safely(func() { err = ni.UnmarshalBinary(b) })
+			pan := safely(func() { buf := append([]byte{}, b...); err = ni.UnmarshalBinary(buf); spoil(buf) })
 			ans := "err"
 			rp := map[string]string{"input": hx(b), "len": itoa(n)}
 			switch {
